@@ -1281,10 +1281,15 @@ def _tensordot_transpose_axes(a, b, axes):
             raise ValueError("different lens of axes for a, b: " + repr(axes))
         not_axes_a = [i for i in range(a_rank) if i not in axes_a]
         not_axes_b = [i for i in range(b_rank) if i not in axes_b]
-        if axes_a != range(a_rank - len(not_axes_a), a_rank):
-            Array_itranspose_fast(a, np.array(not_axes_a + axes_a, dtype=np.intp))
-        if axes_b != range(len(axes_b)):
-            Array_itranspose_fast(b, np.array(axes_b + not_axes_b, dtype=np.intp))
+        perm_a = not_axes_a + axes_a
+        perm_b = axes_b + not_axes_b
+        if len(perm_a) != a_rank or len(set(perm_a)) != a_rank or \
+                len(perm_b) != b_rank or len(set(perm_b)) != b_rank:
+            raise ValueError("axes has wrong length or repeated entries: " + repr(axes))
+        if perm_a != list(range(a_rank)):
+            Array_itranspose_fast(a, np.array(perm_a, dtype=np.intp))
+        if perm_b != list(range(b_rank)):
+            Array_itranspose_fast(b, np.array(perm_b, dtype=np.intp))
         axes = len(axes_a)
 
     # now `axes` is integer
